@@ -192,6 +192,10 @@ def d2(chk, prog):
         for arms in ([0, 0, 1], [0, 1, 1], [0, 0, 0]):
             for chroms in (["chr1"] * 3, ["chr1", "chr1", "chr2"]):
                 configs.append((chroms, list(lv), None, arms, True))
+    # levels that differ by less than one: a merged run's cn is a weighted median, 5.5 for a tie of 5 and 6 (ampdel followed by cn)
+    for lv in itertools.product([5, Fr(11, 2), 6], repeat=3):
+        configs.append((["chr1"] * 3, list(lv), None, None, False))
+    configs.append((["chr1"] * 4, [Fr(1, 4), Fr(1, 2), Fr(3, 4), 1], None, None, False))
     # a table left without rows (ampdel on a sample without amplifications or deep deletions, then cn): nothing to merge, an empty table comes back
     configs.append(([], [], None, None, False))
     configs.append(([], [], [], None, False))
@@ -480,16 +484,18 @@ MUTANTS = [
     dict(name="ampdel: amplification from 4", file=_F, old='    levels[segarr["cn"] >= 5] = 1', new='    levels[segarr["cn"] >= 4] = 1'),
     dict(name="ampdel: keeps cn > 5", file=_F, old='    return cnarr[(cnarr["cn"] == 0) | (cnarr["cn"] >= 5)]', new='    return cnarr[(cnarr["cn"] == 0) | (cnarr["cn"] > 5)]'),
     dict(name="cn filter groups by log2", file=_F, old='    return squash_by_groups(segarr, segarr["cn"])', new='    return squash_by_groups(segarr, segarr["log2"].round())'),
-    dict(name="seeded C14c: nothing-to-merge shortcut by the last run index", file=_F, old="    assert change_levels.index.is_unique\n", new="    assert change_levels.index.is_unique\n    if len(levels) and change_levels.iat[-1] == len(levels) - 1:\n        return cnarr\n"),
+    # (a breaker while the run index was a truncated sum of magnitudes; with the run index a count of changes the shortcut is exact)
+    dict(name="twin since the enumerate_changes repair (was seeded C14c): nothing-to-merge shortcut by the last run index", expect="silent", file=_F, old="    assert change_levels.index.is_unique\n", new="    assert change_levels.index.is_unique\n    if len(levels) and change_levels.iat[-1] == len(levels) - 1:\n        return cnarr\n"),
     dict(name="twin: chromosome ordinal renamed and added out of place", expect="silent", file=_F, old="        change_levels += chrom_col\n", new="        chrom_ordinal = chrom_col\n        change_levels = change_levels + chrom_ordinal\n"),
     dict(name="seeded C14f: weighted summaries only when every member has weight", file=_F, old='    if region_weight > 0:\n        out["log2"] = np.average', new='    if (cnarr["weight"] > 0).all():\n        out["log2"] = np.average'),
     dict(name="seeded C14e: ci hands squash_by_groups a bare array, re-wrapped without the index", edits=[(_F, '    levels[segarr["ci_hi"].values < 0] = -1\n    return squash_by_groups(segarr, pd.Series(levels, index=segarr.data.index))', '    levels[segarr["ci_hi"].values < 0] = -1\n    return squash_by_groups(segarr, levels)'), (_F, "    # Enumerate runs of identical values\n", "    if not isinstance(levels, pd.Series):\n        levels = pd.Series(levels)\n")]),
     dict(name="twin: bare level arrays wrapped on the table's own index inside squash_by_groups", expect="silent", edits=[(_F, '    levels[segarr["ci_hi"].values < 0] = -1\n    return squash_by_groups(segarr, pd.Series(levels, index=segarr.data.index))', '    levels[segarr["ci_hi"].values < 0] = -1\n    return squash_by_groups(segarr, levels)'), (_F, "    # Enumerate runs of identical values\n", "    if not isinstance(levels, pd.Series):\n        levels = pd.Series(levels, index=cnarr.data.index)\n")]),
     # (once listed as a twin; it is not: NaN != NaN, so neighbours that both lack allelic copy numbers never form a run -- seeded C14i is this change)
-    dict(name="run index by comparing with the shifted levels (missing levels never form a run)", file=_F, old="    return levels.diff().fillna(0).abs().cumsum().astype(int)", new="    changed = levels != levels.shift()\n    changed.iloc[0] = False\n    return changed.cumsum().astype(int)"),
+    dict(name="run index by comparing with the shifted levels (missing levels never form a run)", file=_F, old="    return levels.diff().fillna(0).ne(0).cumsum().astype(int)", new="    changed = levels != levels.shift()\n    changed.iloc[0] = False\n    return changed.cumsum().astype(int)"),
     dict(name="chromosome ordinal dropped", file=_F, old="        change_levels += chrom_col\n", new=""),
     dict(name="allele-specific key dropped", file=_F, old='        groupkey.extend(["_g1", "_g2"])\n', new=""),
-    dict(name="enumerate_changes without abs", file=_F, old="    return levels.diff().fillna(0).abs().cumsum().astype(int)", new="    return levels.diff().fillna(0).cumsum().astype(int)"),
+    dict(name="regress: run index from the truncated sum of the absolute level differences (steps below 1 are lost)", file=_F, old="    return levels.diff().fillna(0).ne(0).cumsum().astype(int)", new="    return levels.diff().fillna(0).abs().cumsum().astype(int)"),
+    dict(name="twin: run index by comparing the differences with zero through != ", expect="silent", file=_F, old="    return levels.diff().fillna(0).ne(0).cumsum().astype(int)", new="    steps = levels.diff().fillna(0)\n    return (steps != 0).cumsum().astype(int)"),
     dict(name="squash end from first row", file=_F, old='        "end": cnarr["end"].iat[-1],', new='        "end": cnarr["end"].iat[0],'),
     dict(name="squash probes mean", file=_F, old='    out["probes"] = cnarr["probes"].sum() if "probes" in cnarr else len(cnarr)', new='    out["probes"] = cnarr["probes"].mean() if "probes" in cnarr else len(cnarr)'),
     dict(name="squash log2 unweighted", file=_F, old='        out["log2"] = np.average(cnarr["log2"], weights=cnarr["weight"])', new='        out["log2"] = np.mean(cnarr["log2"])'),
